@@ -83,3 +83,54 @@ impl RngFor for f32 {
         WordRng { vals: draws.iter().map(|x| *x as f64).collect(), i: 0 }
     }
 }
+
+// ---- scalar-path symbolic type (SymF): Standard draws and rand's Uniform as its documented contract ----------------------
+use crate::sym::SymF;
+use rand::distributions::uniform::{SampleBorrow, SampleUniform, UniformSampler};
+
+thread_local! {
+    static QUEUE_F: RefCell<Vec<SymF>> = RefCell::new(Vec::new());
+}
+impl Distribution<SymF> for Standard {
+    fn sample<R: rand::Rng + ?Sized>(&self, _rng: &mut R) -> SymF {
+        QUEUE_F.with(|q| q.borrow_mut().pop().expect("more draws than declared variables"))
+    }
+}
+impl RngFor for SymF {
+    type R = SymRng;
+    fn rng(draws: &[SymF]) -> SymRng {
+        QUEUE_F.with(|q| *q.borrow_mut() = draws.iter().rev().cloned().collect());
+        SymRng
+    }
+}
+/// rand's `Uniform<float>` as its contract: `new(lo, hi)` / `new_inclusive(lo, hi)` sample lo + (hi - lo) u with u the next
+/// declared draw in [0, 1] (rand guarantees [lo, hi) resp. [lo, hi]; the closed interval is the weaker statement). Natively the
+/// real `UniformFloat<f32 / f64>` runs on a generator whose words reproduce the same u.
+pub struct SymUniform {
+    lo: SymF,
+    hi: SymF,
+}
+impl SampleUniform for SymF {
+    type Sampler = SymUniform;
+}
+impl UniformSampler for SymUniform {
+    type X = SymF;
+    fn new<B1, B2>(low: B1, high: B2) -> Self
+    where
+        B1: SampleBorrow<SymF> + Sized,
+        B2: SampleBorrow<SymF> + Sized,
+    {
+        SymUniform { lo: *low.borrow(), hi: *high.borrow() }
+    }
+    fn new_inclusive<B1, B2>(low: B1, high: B2) -> Self
+    where
+        B1: SampleBorrow<SymF> + Sized,
+        B2: SampleBorrow<SymF> + Sized,
+    {
+        SymUniform { lo: *low.borrow(), hi: *high.borrow() }
+    }
+    fn sample<R: rand::Rng + ?Sized>(&self, _rng: &mut R) -> SymF {
+        let u = QUEUE_F.with(|q| q.borrow_mut().pop().expect("more draws than declared variables"));
+        self.lo + (self.hi - self.lo) * u
+    }
+}
